@@ -1,7 +1,7 @@
 #!/bin/bash
 # tools/matrix_seed.sh <seed> : every seeded change (all rounds) against its owning quick check with VERIF_SEED=<seed>
 SEED=${1:-1}; OUT=/tmp/confirm/matrix_s$SEED; mkdir -p $OUT; cd /verif
-for spec in "seeded/_incoming:" "seeded/_incoming2:b" "seeded/_incoming3:c" "seeded/_incoming4:d" "seeded/_incoming5:e" "seeded/_incoming6:f" "seeded/_incoming7:g"; do
+for spec in "seeded/_incoming:" "seeded/_incoming2:b" "seeded/_incoming3:c" "seeded/_incoming4:d" "seeded/_incoming5:e" "seeded/_incoming6:f" "seeded/_incoming7:g" "seeded/_incoming8:h"; do
   INC=${spec%%:*}; TAG=${spec##*:}
   for d in $INC/*/; do P=$(basename $d); for k in 1 2 3; do
     patch=$d/change_$k.diff; [ -f $d/change_${k}_ported.diff ] && patch=$d/change_${k}_ported.diff
